@@ -495,8 +495,11 @@ impl WorldC {
                                 let live: Vec<u8> = self.servers[o].model.registered.difference(&self.servers[o].model.punctured).copied().collect();
                                 if !live.is_empty() {
                                     let md = *ctx.ch.pick(&live);
-                                    self.puncture_checked(ctx, o, md)?;
-                                    self.sweep(ctx, s, &format!("a puncture of {} on its clone", md)).map_err(|mut v| {
+                                    // diverge in a drawn direction: puncture on the clone (the original must not
+                                    // notice) or on the original (the clone must not notice)
+                                    let (punct, other) = if ctx.ch.chance(1, 2) { (o, s) } else { (s, o) };
+                                    self.puncture_checked(ctx, punct, md)?;
+                                    self.sweep(ctx, other, &format!("a puncture of {} on its clone/original", md)).map_err(|mut v| {
                                         v.invariant = "c14.clone_coupled".into();
                                         v
                                     })?;
